@@ -7,7 +7,7 @@ import json, os, shutil, subprocess, sys
 
 ISO = os.environ.get("RECHECK_DIR", "/tmp/vrecheck")
 V, R = os.path.join(ISO, "verif"), os.path.join(ISO, "repo")
-ENV = dict(os.environ, GOFLAGS="-mod=mod", GOPROXY="off", GOSUMDB="off", GOTOOLCHAIN="local", VERIF_REPO=R)
+ENV = dict(os.environ, GOFLAGS="-mod=mod", GOPROXY="off", GOSUMDB="off", GOTOOLCHAIN="local", VERIF_REPO=R, VERIF_NO_SHRINK="1")
 
 
 def sh(cmd, cwd=None, timeout=3000):
